@@ -36,23 +36,83 @@ type globStats struct {
 	Edits      int            `json:"rerun_probe_edits"`
 }
 
-// segment matcher for the reference: literals and '*'
-func refSeg(p, s string) bool {
-	if p == "" {
-		return s == ""
+// segment matcher for the reference (independent of doublestar): literals, '*', '?', classes [..] [!..] [^..] with ranges
+func refSeg(p, s string) bool { return refSegR([]rune(p), []rune(s)) }
+func refSegR(p, s []rune) bool {
+	if len(p) == 0 {
+		return len(s) == 0
 	}
-	if p[0] == '*' {
+	switch p[0] {
+	case '*':
 		for i := 0; i <= len(s); i++ {
-			if refSeg(p[1:], s[i:]) {
+			if refSegR(p[1:], s[i:]) {
 				return true
 			}
 		}
 		return false
+	case '?':
+		return len(s) > 0 && refSegR(p[1:], s[1:])
+	case '[':
+		end := -1
+		for i := 2; i < len(p); i++ { // a class has at least one member: "[]" is not one
+			if p[i] == ']' && !(i == 2 && (p[1] == '!' || p[1] == '^')) {
+				end = i
+				break
+			}
+		}
+		if end < 0 || len(s) == 0 {
+			return false
+		}
+		body, neg := p[1:end], false
+		if body[0] == '!' || body[0] == '^' {
+			body, neg = body[1:], true
+		}
+		in := false
+		for i := 0; i < len(body); i++ {
+			if i+2 < len(body) && body[i+1] == '-' {
+				in = in || (body[i] <= s[0] && s[0] <= body[i+2])
+				i += 2
+			} else {
+				in = in || body[i] == s[0]
+			}
+		}
+		return in != neg && refSegR(p[end+1:], s[1:])
 	}
-	return s != "" && p[0] == s[0] && refSeg(p[1:], s[1:])
+	return len(s) > 0 && p[0] == s[0] && refSegR(p[1:], s[1:])
 }
 
-// tree-aware reference matcher: isDir(prefix) tells whether the path prefix is a directory
+// refAlts: the alternation-free patterns a pattern stands for ({a,b} and nesting)
+func refAlts(p string) []string {
+	open := strings.IndexByte(p, '{')
+	if open < 0 {
+		return []string{p}
+	}
+	depth, end := 0, -1
+	var cuts []int
+	for i := open + 1; i < len(p) && end < 0; i++ {
+		switch {
+		case p[i] == '{':
+			depth++
+		case p[i] == '}' && depth == 0:
+			end = i
+		case p[i] == '}':
+			depth--
+		case p[i] == ',' && depth == 0:
+			cuts = append(cuts, i)
+		}
+	}
+	if end < 0 {
+		return nil
+	}
+	var out []string
+	start := open + 1
+	for _, c := range append(cuts, end) {
+		out = append(out, refAlts(p[:open]+p[start:c]+p[end+1:])...)
+		start = c + 1
+	}
+	return out
+}
+
 func refMatch(pat, path []string, at string, isDir func(string) bool) bool {
 	if len(pat) == 0 {
 		return len(path) == 0
@@ -108,9 +168,10 @@ func globCmd(args []string) error {
 		pool = append(pool, "f:Makefile", "d:src/deep/.x")
 	}
 	fragment := []string{"*.js", "**/*.js", "src/*", "*/*", "**", "src/**", "*", "**/*", "src/*.js", "*/*.js", "**/deep/*",
-		"src/**/*.js", ".*", "s*c/*.js", "**/.*", "*.txt", "lib/**", "**/d.js", "src/deep/*.js", "z*", "**/**", "*/**/*.js", "e*/**"}
-	beyond := []string{"*.{js,txt}", "src/[bc].*", "?.j*", "**/*.{js,txt}"}
-	st.Exhaustive = fmt.Sprintf("every subset of a pool of %d candidate paths (top-level and nested files, dot-files and dot-directories at both levels, an empty directory, names sorting before and after) x %d patterns of the modelled fragment (+ %d patterns with alternation/classes/'?' compared with doublestar.Match on a full walk only)", len(pool), len(fragment), len(beyond))
+		"src/**/*.js", ".*", "s*c/*.js", "**/.*", "*.txt", "lib/**", "**/d.js", "src/deep/*.js", "z*", "**/**", "*/**/*.js", "e*/**",
+		"*.{js,txt}", "src/[bc].*", "?.j*", "**/*.{js,txt}", "{src,lib}/*.js", "src/{b,c}.*", "[!a]*.js", "**/[a-c].j?", "{a,z,src/{b,x}}.j*", "s?c/*", "[^.]*"}
+	beyond := []string{}
+	st.Exhaustive = fmt.Sprintf("every subset of a pool of %d candidate paths (top-level and nested files, dot-files and dot-directories at both levels, an empty directory, names sorting before and after) x %d patterns (literal, *, ?, classes, alternation incl. nested and across a slash, **), each judged by a reference matcher written for the harness", len(pool), len(fragment))
 
 	for mask := 0; mask < 1<<len(pool); mask++ {
 		if mask%*nshards != *shard {
@@ -154,7 +215,7 @@ func globCmd(args []string) error {
 		expandOnce := func(pattern string) (string, error) {
 			// two tasks share the pattern and run in one invocation; the first also names a literal file that sorts before
 			// every match: the expansion recorded for the pattern must not depend on what the run does with it
-			src := fmt.Sprintf("task t(%q, \"../AAA.lit\") {\n    run t\n}\n\ntask u(%q, t) {\n    run u\n}\n", pattern, pattern)
+			src := fmt.Sprintf("task t(%q, \"../AAA.lit\") {\n    run t\n}\n\ntask u(%q, t) {\n    run u\n}\n\ntask w(%q, %q, t) {\n    run w\n}\n", pattern, pattern, pattern+"zq", pattern)
 			tree, err := parser.New(src).Parse()
 			if err != nil {
 				return "", err
@@ -164,7 +225,7 @@ func globCmd(args []string) error {
 				return "", err
 			}
 			// Run expands every glob of the file before it runs anything; the task's command is swallowed by the runner
-			if _, err := sf.Run(iostream.Null(), &recRunner{}, true, "u"); err != nil {
+			if _, err := sf.Run(iostream.Null(), &recRunner{}, true, "u", "w"); err != nil {
 				return "", err
 			}
 			var rel []string
@@ -188,7 +249,7 @@ func globCmd(args []string) error {
 		}
 		// an unforced run of u (a fresh SpokFile, as a new invocation would build): was u skipped?
 		runU := func(pattern string) (bool, error) {
-			src := fmt.Sprintf("task t(%q, \"../AAA.lit\") {\n    run t\n}\n\ntask u(%q, t) {\n    run u\n}\n", pattern, pattern)
+			src := fmt.Sprintf("task t(%q, \"../AAA.lit\") {\n    run t\n}\n\ntask u(%q, t) {\n    run u\n}\n\ntask w(%q, %q, t) {\n    run w\n}\n", pattern, pattern, pattern+"zq", pattern)
 			tree, err := parser.New(src).Parse()
 			if err != nil {
 				return false, err
@@ -197,16 +258,29 @@ func globCmd(args []string) error {
 			if err != nil {
 				return false, err
 			}
-			results, err := sf.Run(iostream.Null(), &recRunner{}, false, "u")
+			// w names the pattern after another pattern that contains it as a substring (and matches nothing): same answer expected
+			results, err := sf.Run(iostream.Null(), &recRunner{}, false, "u", "w")
 			if err != nil {
 				return false, err
 			}
+			su, sw, n := false, false, 0
 			for _, r := range results {
 				if r.Task == "u" {
-					return r.Skipped, nil
+					su = r.Skipped
+					n++
+				}
+				if r.Task == "w" {
+					sw = r.Skipped
+					n++
 				}
 			}
-			return false, fmt.Errorf("u not in the results")
+			if n != 2 {
+				return false, fmt.Errorf("u and w not both in the results")
+			}
+			if su != sw {
+				return false, fmt.Errorf("task u (the pattern alone) skipped=%v but task w (the same pattern after a longer one) skipped=%v", su, sw)
+			}
+			return su, nil
 		}
 		for pi, pattern := range append(append([]string{}, fragment...), beyond...) {
 			inFragment := pi < len(fragment)
@@ -214,9 +288,13 @@ func globCmd(args []string) error {
 			if err != nil {
 				res = "ERR"
 			}
-			res2, err2 := expandOnce(pattern)
-			if err2 != nil {
-				res2 = "ERR"
+			// a second expansion of the unchanged tree (a fresh SpokFile) on a quarter of the cases (thorough: all)
+			res2 := res
+			if *tier == "thorough" || (mask+pi)%4 == 1 {
+				var err2 error
+				if res2, err2 = expandOnce(pattern); err2 != nil {
+					res2 = "ERR"
+				}
 			}
 			cs := strings.Join(enc, ",") + "|" + pattern
 			// reference: every entry whose relative path matches and does not begin with a dot
@@ -227,7 +305,9 @@ func globCmd(args []string) error {
 				}
 				var ok bool
 				if inFragment {
-					ok = refMatch(strings.Split(pattern, "/"), strings.Split(p, "/"), "", isDir)
+					for _, alt := range refAlts(pattern) {
+						ok = ok || refMatch(strings.Split(alt, "/"), strings.Split(p, "/"), "", isDir)
+					}
 				} else {
 					ok, _ = doublestar.Match(pattern, p)
 				}
@@ -246,10 +326,10 @@ func globCmd(args []string) error {
 				st.OracleFail["C05"]++
 				fmt.Fprintf(bo, "C05 %s two expansions of the unchanged tree differ: [%s] vs [%s]\n", strings.ReplaceAll(cs, " ", "_"), res, res2)
 			}
-			// end to end, on a third of the cases: which edits make the task run again.  The forced runs above recorded the
+			// end to end, on a quarter of the cases: which edits make the task run again.  The forced runs above recorded the
 			// task's inputs; now (a) nothing changed: u is skipped exactly when the pattern denotes something, (b) a file the
 			// pattern does not denote (hidden ones included) is edited: still skipped, (c) a denoted file is edited: u runs
-			if err == nil && res == ws && (mask+pi)%3 == 0 {
+			if err == nil && res == ws && (mask+pi)%4 == 0 {
 				probe := func(what string, edit string, wantSkipped bool) {
 					if edit != "" {
 						st.Edits++
